@@ -22,7 +22,13 @@ PROPERTY = {
             "RawValue::as_value": "Some for Value, None for Null/Unset",
         }),
     ],
-    "kani": [],
+    "timeout": 900,
+    "kani": [
+        Harness("c08_body_extensions_tracing", "C08.body_extensions.tracing", "BOUNDED", "parse_response_body_extensions with/without TRACING on every body of 0..=18 bytes: Ok iff the 16-byte trace id is there; trace id / rest exact; never a panic", bound="body <= 18 bytes", crate="scylla-cql", functions=["scylla-cql/src/frame/mod.rs:parse_response_body_extensions", "scylla-cql/src/frame/types.rs:read_uuid"]),
+        Harness("c08_body_extensions_compression_not_negotiated", "C08.body_extensions.compression_flag", "BOUNDED", "COMPRESSION flag without negotiated compression => Err for any body", bound="body <= 4 bytes", crate="scylla-cql", functions=["scylla-cql/src/frame/mod.rs:parse_response_body_extensions"]),
+        Harness("c08_twin_read_value", "C08.twin.read_value", "BOUNDED", "read_value on every input of <= 8 bytes: exact result, never past the end", bound="input <= 8 bytes", crate="scylla-cql-core", twin=True, functions=[F + "read_value"]),
+        Harness("c08_twin_read_bytes_opt_and_short_bytes", "C08.twin.read_bytes_opt", "BOUNDED", "read_bytes_opt / read_short_bytes / read_int_length on every input of <= 8 bytes", bound="input <= 8 bytes", crate="scylla-cql-core", twin=True, functions=[F + "read_bytes_opt", F + "read_short_bytes", F + "read_int_length"]),
+    ],
     "trusted_base": ["Verus/Z3 soundness", "byteorder::ReadBytesExt::{read_u16,read_i32}::<BigEndian> on &[u8] (external_body contracts)", "thiserror-generated From impls (unspecified)"],
     "assumptions": [],
     "not_covered": ["typed response parsers beyond the primitives (pending Kani harnesses)", "stack depth / allocation size", "lz4/snappy internals"],
